@@ -1678,7 +1678,7 @@ def _run(o, thorough, rng, gens, side, provcfg, jobs):
     o.extra["generated_schedules"]["Gen_Workers_restore"] = len(cases)
     o.extra["generated_schedules"]["Gen_Workers_restore: the replaced database was open in another process"] = sum(1 for c in cases if c["live"])
     n_before = len(gens)
-    gens += pick_live_first(cases, 700 if thorough else 24, random.Random(common.seed() * 43 + 11))
+    gens += pick_live_first(cases, 400 if thorough else 24, random.Random(common.seed() * 43 + 11))
     del cases, r
     if thorough:   # three workers: the restoring one and the later openers beside paused / idle earlier workers (random walks)
         r = tlc("Gen_Workers", "Sim_Workers_restore.cfg", workers=1, timeout=900,
